@@ -856,3 +856,138 @@ def oracle_fileset(res):
             S.n_open -= 1
             S.source_op(h)
     return fails
+
+
+# ---------------------------------------------------------------------------------------------
+# independent-encoder family (C11): random LEGAL encoding choices for the same logical content
+
+def lcp_len(a, b):
+    n = 0
+    while n < len(a) and n < len(b) and a[n] == b[n]:
+        n += 1
+    return n
+
+
+def gen_efile_spec(rng, stats):
+    keys = gen_keys(rng, rng.pick([0, 1, 2, 4, 7, 12, 20]), stats, long_ok=rng.chance(1, 5))
+    ents = [(k, gen_val(rng, stats, 40)) for k in keys]
+    ents = [(k, v if len(v) < 3000 else v[:3000]) for k, v in ents]
+    ver = rng.pick([1, 2, 2])
+    comp = rng.pick([0, 0, 0, 1, 2, 3, 4, 5])
+    thr = rng.pick([4294967295, 4294967295, 4294967295, 8, 40, 200])
+    pre = bytes(rng.below(256) for _ in range(rng.pick([0, 0, 3, 100, 513]))) if rng.chance(1, 3) else b""
+    # split into non-empty blocks
+    blocks = []
+    i = 0
+    while i < len(ents):
+        n = rng.pick([1, 1, 2, 3, 5, 9])
+        blocks.append(ents[i:i + n]); i += n
+    def choose_block(es):
+        n = len(es)
+        mode = rng.pick(["every", "one", "random", "writer"])
+        if mode == "every":
+            rs = list(range(max(n, 1)))
+        elif mode == "one":
+            rs = [0]
+        elif mode == "writer":
+            iv = rng.pick([1, 2, 3, 16]); rs = list(range(0, max(n, 1), iv))
+        else:
+            rs = sorted(set([0] + [j for j in range(1, n) if rng.chance(1, 3)]))
+        items = []
+        for j, (k, v) in enumerate(es):
+            if j == 0 or j in rs:
+                sh = 0
+            else:
+                m = lcp_len(es[j - 1][0], k)
+                sh = rng.pick([m, m, m, rng.below(m + 1), 0])
+            items.append((sh, k, v))
+        stats.bump("enc_restarts_" + mode)
+        return rs, items
+    eblocks = [choose_block(b) for b in blocks]
+    # separators: last_j <= sep < first_{j+1}; last block: sep >= last key
+    seps = []
+    for j, b in enumerate(blocks):
+        last = b[-1][0]
+        if j + 1 < len(blocks):
+            nxt = blocks[j + 1][0][0]
+            cands = [last]
+            if last + b"\x00" < nxt:
+                cands.append(last + b"\x00")
+            m = lcp_len(last, nxt)
+            if m < len(last) and m < len(nxt) and last[m] + 1 < nxt[m]:
+                cands.append(last[:m] + bytes([last[m] + 1]))
+            if len(nxt) > 1 and last < nxt[:-1]:
+                cands.append(nxt[:-1])
+            seps.append(rng.pick(cands))
+        else:
+            seps.append(rng.pick([last, last + b"\xff", last + b"\x00\x01"]))
+        stats.bump("enc_sep_eq_last" if seps[-1] == last else "enc_sep_other")
+    nb = len(blocks)
+    idx_rs = sorted(set([0] + [j for j in range(1, nb) if rng.chance(1, 3)])) if nb else [0]
+    idx_sh = []
+    for j in range(nb):
+        if j == 0 or j in idx_rs:
+            idx_sh.append(0)
+        else:
+            m = lcp_len(seps[j - 1], seps[j]); idx_sh.append(rng.pick([m, m, rng.below(m + 1), 0]))
+    def blk(rs, items):
+        return "rs:" + ",".join(map(str, rs)) + "".join("|%d,%s,%s" % (sh, hx(k), hx(v)) for sh, k, v in items)
+    spec = "ver=%d comp=%d thr=%d bsf=%d pre=%s idxsh=%s idxrs=%s seps=%s blocks=%s" % (
+        ver, comp, thr, rng.pick([1024, 8192, 0, 77]), hx(pre), ",".join(map(str, idx_sh)) or "-", ",".join(map(str, idx_rs)),
+        ",".join(hx(s) for s in seps), ";".join(blk(rs, items) for rs, items in eblocks))
+    stats.bump("enc_ver_%d" % ver); stats.bump("enc_comp_%d" % comp); stats.bump("enc_thr_%s" % ("real" if thr > 1000 else "small")); stats.bump("enc_blocks_%d" % min(nb, 5))
+    return spec, ents, comp, thr
+
+
+def gen_enc_script(rng, stats, spec, ents, comp, thr, ctab_lines):
+    keys = [k for k, _ in ents]
+    lines = ["reset"] + ctab_lines + ["enc.legal " + spec, "@f enc.file 7 " + spec, "blob 7 $f",
+             "r.openb 2 7 verify=%d thr=%d" % (rng.below(2), thr), "r.it 2 10 iter"]
+    lines += ["r.next 10"] * (len(keys) + 2)
+    iid = 11
+    for _ in range(rng.pick([2, 4])):
+        kind = gen_kind(rng, keys, which=1 + rng.below(3))
+        lines.append("r.it 2 %d %s" % (iid, kind_args(kind)))
+        lines += ["r.next %d" % iid] * rng.pick([2, 3, len(keys) + 1])
+        iid += 1
+    for _ in range(rng.pick([1, 2, 3])):
+        kind = gen_kind(rng, keys)
+        lines.append("r.it 2 %d %s" % (iid, kind_args(kind)))
+        cur = Cursor([(k, b"") for k in keys], kind)
+        lines += history_ops(rng, "r", iid, cur, keys, rng.pick([4, 8, 12]), stats)
+        iid += 1
+    return lines
+
+
+def oracle_enc(res, ents):
+    """the real reader must return exactly the encoded entries for iteration, lookups and seek histories"""
+    fails = []
+    iters = {}
+    for i, r in enumerate(res):
+        t = r["req"].split(" "); op = t[0]; real = r["real"]
+        if real == "asan" or real.startswith("crash") or (real == "abort" and op != "r.openb"):
+            fails.append(("C11", "reader died on a well-formed file: %s %s" % (real, r.get("stderr", "")[-300:]), i)); break
+        if op == "enc.legal" and real != "legal":
+            fails.append(("gen", "generator produced an illegal encoding", i)); break
+        if op == "r.openb":
+            if not real.startswith("ok "):
+                fails.append(("C11", "well-formed file does not open: " + real, i)); break
+        elif op == "r.it":
+            c = Cursor(ents, parse_kind(t[3:]))
+            if real == "null":
+                if c.pos < len(ents):
+                    fails.append(("C11", "NULL iterator although entries exist at/after the start", i))
+                iters[t[2]] = None
+            else:
+                iters[t[2]] = c
+        elif op == "r.next" and t[1] in iters:
+            c = iters[t[1]]
+            exp = c.next() if c is not None else None
+            want = "fail" if exp is None else "ent %s %s" % (hx(exp[0]), hx(exp[1]))
+            if real != want:
+                fails.append(("C11", "next returned %s, the encoded content gives %s" % (real[:70], want[:70]), i))
+        elif op == "r.seek" and t[1] in iters and iters[t[1]] is not None:
+            if real != "ok":
+                fails.append(("C11", "seek returned " + real, i))
+            iters[t[1]].seek(unhx(t[2]))
+    return fails
